@@ -407,7 +407,25 @@ func ruleOutputValidated(p *Prog, m *Model, r *Report, only string) {
 					return true, 1
 				})
 				if g != nil {
-					guarded++
+					// and by nothing else: `check(c1) || c2 != "" && check(c2)` skips the
+					// second validation whenever the first call returns true
+					extra := ""
+					for _, ob := range fn.Blocks {
+						oi := ifOf(ob)
+						if oi == nil || oi == g {
+							continue
+						}
+						for k := range ob.Succs {
+							if edgeDominates(ob, k, cs.In.Block()) {
+								extra = "the second validation at " + p.ipos(cs.In) + " also depends on the condition at " + p.ipos(oi)
+							}
+						}
+					}
+					if extra == "" {
+						guarded++
+					} else {
+						lostVerdict = append(lostVerdict, extra)
+					}
 				}
 			}
 		}
